@@ -64,7 +64,9 @@ CHECK = {
          'measured byte-exactly) and through the real binary (reply / close / pending / abort / stall, RSS, wall time), '
          'including a control-plane family: every UMCTL / CONFIG / CLUSTER / UMFORWARD / UMSYNC / COMMAND form with one field '
          'at a time replaced by boundary numbers, names and addresses, each followed by CLUSTER NODES / SLOTS, UMCTL INFO / '
-         'GETEPOCH / INFOREPL / INFOMGR and data commands on the same and on a second connection.',
+         'GETEPOCH / INFOREPL / INFOMGR and data commands on the same and on a second connection; routing keys with every '
+         'brace pattern in every key-carrying command; CONFIG SET of every field of set_value (read from the source) x boundary '
+         'values followed by ordinary traffic on the same, an established and a fresh connection.',
  'note': 'Trusted: Lean kernel; cost annotation of steps; child-process observer. Not covered: accept-loop fd '
          'exhaustion, gzip/zstd bombs, UMCTL admin commands as an attack surface (SHUTDOWN, CONFIG SET).',
 }
